@@ -195,6 +195,15 @@ func guardParams(c *Ctx) {
 			"a failed resolution ("+kind+") is handed to the callback", "the branch taken when the $ref resolution fails ("+kind+") does not consult the error callback: the failure is neither reported nor turned into a panic")
 		return true
 	})
+	// the inverted shape: `if err == nil { store; continue }` followed by the callback edge — the edge is reached
+	// under the failure condition without sitting inside a failure test
+	for nd := range edgeIn {
+		for _, cd := range c.conds(fi, nd) {
+			if x, nonNil, ok := core.NilTest(info, cd); ok && nonNil && core.IsErrorType(info.TypeOf(x)) {
+				failures++
+			}
+		}
+	}
 	if edges < 1 || failures < 1 {
 		c.S.Decide(false, "C15", "GUARD-CALLBACK", fi.QName()+"/error-edges", c.P.Pos(fi.Decl.Pos()), "",
 			fmt.Sprintf("%d failure tests and %d callback edges found in the parameter merge (expected at least one of each)", failures, edges))
